@@ -109,6 +109,31 @@ def main():
                 setattr(sys, name, f)
             elif stdio == 'ascii':
                 setattr(sys, name, io.TextIOWrapper(io.BytesIO(), encoding='ascii', errors='strict'))
+    for what in job.get('prestate') or ():
+        # the embedding program has configured the interpreter before it gets round to importing anything: whatever it
+        # set must still be there afterwards
+        if what == 'gc_off':
+            import gc
+            gc.disable()
+        elif what == 'gc_threshold':
+            import gc
+            gc.set_threshold(123, 7, 7)
+        elif what == 'reclimit':
+            sys.setrecursionlimit(1777)
+        elif what == 'switchinterval':
+            sys.setswitchinterval(0.0031)
+        elif what == 'excepthook':
+            sys.excepthook = lambda *a: None
+        elif what == 'unraisablehook':
+            sys.unraisablehook = lambda *a: None
+        elif what == 'logging_disable':
+            import logging
+            logging.disable(logging.INFO)
+        elif what == 'signal':
+            import signal
+            signal.signal(signal.SIGUSR1, lambda *a: None)
+        elif what == 'dont_write_bytecode':
+            sys.dont_write_bytecode = not sys.dont_write_bytecode
     ns = {'__name__': '__main__'}
     state_before = interpreter_state()
     # which environment variables does code of the package under test look at?  (recorded, never altered)
@@ -202,9 +227,9 @@ def interpreter_state():
     st['switchinterval'] = sys.getswitchinterval()
     st['cwd'] = os.getcwd()
     st['environ'] = sorted(os.environ.items())
-    st['excepthook'] = sys.excepthook is sys.__excepthook__
-    st['displayhook'] = sys.displayhook is sys.__displayhook__
-    st['unraisablehook'] = sys.unraisablehook is sys.__unraisablehook__
+    st['excepthook'] = (sys.excepthook is sys.__excepthook__, id(sys.excepthook))
+    st['displayhook'] = (sys.displayhook is sys.__displayhook__, id(sys.displayhook))
+    st['unraisablehook'] = (sys.unraisablehook is sys.__unraisablehook__, id(sys.unraisablehook))
     st['stdout'] = (sys.stdout is sys.__stdout__, id(sys.stdout))
     st['stderr'] = (sys.stderr is sys.__stderr__, id(sys.stderr))
     st['threads'] = threading.active_count()
@@ -216,7 +241,7 @@ def interpreter_state():
         sig = getattr(signal, name, None)
         if sig is not None:
             h = signal.getsignal(sig)
-            st['signal.' + name] = h if isinstance(h, int) else getattr(h, '__qualname__', repr(h))
+            st['signal.' + name] = h if isinstance(h, int) else (getattr(h, '__qualname__', repr(h)), id(h))
     st['trace'] = (sys.gettrace() is None, sys.getprofile() is None)
     # sys.meta_path / sys.path_hooks are deliberately not watched: third-party dependencies of bs4 (six, used by
     # html5lib) install an importer there, which is not soupsieve's doing
